@@ -34,6 +34,7 @@ type Prog struct {
 	reachCache  map[*ssa.Function]map[*ssa.Function]bool
 	synth       map[string]*FuncContract
 	synthUsed   map[*ssa.Function]*FuncContract
+	framesUsed  map[string]*FuncContract // contracts of module functions whose preserves clauses were relied on at a call site
 	generated   []string // contract text produced by `generate` directives
 	genNotes    []string
 }
